@@ -1,6 +1,6 @@
 (* C01 — the hub LTS instantiated with the concrete expression language (Expr/Eval.v): integer-valued number ports,
-   snapshots turned into evaluation contexts, dependencies from port_deps; the frame hypothesis of HubThm is discharged by
-   Expr/Deps.v:deps_sound, so the convergence theorem holds with no assumption left about expressions. *)
+   snapshots and the live enabled flags turned into evaluation contexts, dependencies from port_deps; the frame hypothesis of
+   HubThm is discharged by Expr/Deps.v:deps_sound, so the convergence theorem holds with no assumption left about expressions. *)
 From QT Require Import C01.Hub C01.HubThm Expr.Spec Expr.EvalThm Expr.Deps.
 Open Scope Z_scope.
 
@@ -17,16 +17,18 @@ Qed.
 (* port p is called "p<p>" by the harness; any naming works for the theorems *)
 Section Inst.
   Variable pname : pid -> string.
-  Variable ids : list pid.                       (* the registered (enabled) ports *)
+  Variable ids : list pid.                       (* the registered ports *)
   Variable now : Z.                              (* evaluation time: irrelevant for time-independent expressions *)
 
-  Definition ctx_of (s : snap V) : ctx :=
+  (* the evaluation context: the snapshot of last read values, and the LIVE enabled flags of the registered ports
+     (PortValue._eval asks port.is_enabled() at evaluation time) *)
+  Definition ctx_of (f : pid -> bool) (s : snap V) : ctx :=
     {| port_values := map (fun p => (pname p, option_map VInt (s p))) ids;
-       Eval.ports := map (fun p => (pname p, true)) ids;
+       Eval.ports := map (fun p => (pname p, f p)) ids;
        now_ms := now; self_id := None; self_last := None; transform_role := false |}.
 
-  Definition feval (e : expr) (s : snap V) : eout pyval :=
-    match eval false (ctx_of s) e with
+  Definition feval (e : expr) (f : pid -> bool) (s : snap V) : eout pyval :=
+    match eval false (ctx_of f s) e with
     | Val v => OVal (Some v)
     | Ref _ => OErr
     | Fail ks => if list_eqb kind_eqb ks [KUnavail] then OVal None else OErr
@@ -49,18 +51,26 @@ Section Inst.
     induction l as [|p l IH]; [reflexivity|]. cbn [map assoc find]. destruct (String.eqb id (pname p)); [reflexivity|exact IH].
   Qed.
 
-  Lemma frame e s1 s2 : (forall d, In d (deps e) -> s1 d = s2 d) -> feval e s1 = feval e s2.
+  Lemma in_deps p id e : In p ids -> id = pname p -> In id (port_deps e) -> In p (deps e).
   Proof.
-    intros H. unfold feval.
-    rewrite (deps_sound false e (ctx_of s1) (ctx_of s2)); [reflexivity|].
+    intros Hin -> Hid. unfold deps. apply filter_In. split; [exact Hin|].
+    apply existsb_exists. exists (pname p). split; [apply in_or_app; left; exact Hid|apply String.eqb_refl].
+  Qed.
+
+  (* evaluation looks at the enabled flags and the snapshot values of the reported dependencies only *)
+  Lemma frame e f1 f2 s1 s2 :
+    (forall d, In d (deps e) -> f1 d = f2 d) -> (forall d, In d (deps e) -> s1 d = s2 d) -> feval e f1 s1 = feval e f2 s2.
+  Proof.
+    intros Hf H. unfold feval.
+    rewrite (deps_sound false e (ctx_of f1 s1) (ctx_of f2 s2)); [reflexivity|].
     unfold agree_on, ctx_of. cbn [port_values Eval.ports now_ms self_id self_last transform_role].
     split; [|split; [|split]].
-    - intros id Hid. split; [reflexivity|]. rewrite !assoc_map.
-      destruct (find (fun p => String.eqb id (pname p)) ids) as [p|] eqn:Ef; [|reflexivity].
-      apply find_some in Ef. destruct Ef as [Hin Heq]. apply String.eqb_eq in Heq. subst id.
-      rewrite (H p); [reflexivity|]. unfold deps. apply filter_In. split; [exact Hin|].
-      apply existsb_exists. exists (pname p). split; [apply in_or_app; left; exact Hid|apply String.eqb_refl].
-    - intros id _. tauto.
+    - intros id Hid. rewrite !assoc_map.
+      destruct (find (fun p => String.eqb id (pname p)) ids) as [p|] eqn:Ef; [|split; reflexivity].
+      apply find_some in Ef. destruct Ef as [Hin Heq]. apply String.eqb_eq in Heq.
+      pose proof (in_deps p id e Hin Heq Hid) as Hd.
+      rewrite (Hf p Hd), (H p Hd). split; reflexivity.
+    - intros id _. rewrite !assoc_map. destruct (find (fun p => String.eqb id (pname p)) ids); split; intros Hc; try discriminate; reflexivity.
     - intros _. split; [reflexivity|]. split; [reflexivity|]. intros id Hc. discriminate.
     - intros _. reflexivity.
   Qed.
